@@ -119,3 +119,33 @@ package transports
 //@     assert [C02.notclose] $packet == packetData && packetData.Type != packet.CLOSE
 //@   callsite (*polling).OnClose#1
 //@     assert [C02.closepacket] packetData.Type == packet.CLOSE && calls(Transport.OnPacket) == $i
+
+// ---- polling discipline (C11), payload limit (C10) --------------------------------------------------------
+//@ func (*polling).onPollRequest(ctx)
+//@   props C11, C12
+//@   requires p != nil && p.Transport != nil && ctx != nil && ctx.response != nil && ctx.ResponseHeaders != nil && ctx.EventEmitter != nil
+//@   modifies *
+//@   let overlap = old(p.req.v) != nil
+//@   ensures [C11.polloverlap] overlap ==> calls(Transport.OnError) == 1 && arg(Transport.OnError, 1, msg) == "overlap from client" && calls((*types.HttpContext).SetStatusCode) == 1 && arg((*types.HttpContext).SetStatusCode, 1, statusCode) == 400 && calls((*types.HttpContext).Write) == 1
+//@   ensures [C11.pollkept]    overlap ==> calls(Transport.SetWritable) == 0 && emitted(p.Transport, "ready") == 0
+//@   ensures [C11.pollaccept]  !overlap ==> calls((*types.HttpContext).Write) == 0 && ncalls(Transport.SetWritable, writable) == 1 && emitted(p.Transport, "ready") == 1 && before(Transport.SetWritable, 1, types.EventEmitter.Emit, 1)
+//@   callsite Transport.SetWritable#1
+//@     assert [C11.reqstored] p.req.v == ctx && $writable
+
+//@ func (*polling).onDataRequest(ctx)
+//@   props C11, C10, C02
+//@   requires p != nil && p.Transport != nil && ctx != nil && ctx.request != nil && ctx.headers != nil && ctx.ResponseHeaders != nil && ctx.response != nil && ctx.EventEmitter != nil
+//@   modifies *
+//@   let overlap   = old(p.dataCtx.v) != nil
+//@   let isBinary  = uf_s_peek(ctx.headers, "Content-Type", old(ctx.headers.$bagver)) == "application/octet-stream"
+//@   let v4binary  = isBinary && old(p.Transport.$protocol) == 4
+//@   let tooLarge  = old(ctx.request.ContentLength) > old(p.Transport.$maxbuf)
+//@   ensures [C11.dataoverlap] overlap ==> calls(Transport.OnError) == 1 && arg(Transport.OnError, 1, msg) == "data request overlap from client" && arg((*types.HttpContext).SetStatusCode, 1, statusCode) == 400 && calls((*types.HttpContext).Write) == 1 && calls(Transport.OnData) == 0
+//@   ensures [C11.oneresponse] calls((*types.HttpContext).Write) + calls(io.WriteString) == 1
+//@   ensures [C10.toolarge413] !overlap && !v4binary && tooLarge ==> arg((*types.HttpContext).SetStatusCode, 1, statusCode) == 413 && calls((*types.HttpContext).Write) == 1 && calls(Transport.OnData) == 0
+//@   ensures [C11.okafter]     calls(io.WriteString) == 1 ==> calls(Transport.OnData) == 1 && before(Transport.OnData, 1, io.WriteString, 1) && arg(io.WriteString, 1, s) == "ok"
+//@   ensures [C11.dataaccept]  !overlap && !v4binary && !tooLarge ==> calls(Transport.OnData) == 1 && calls(io.WriteString) == 1
+//@   callsite Transport.OnData#1
+//@     assert [C10.declared] ctx.request.ContentLength <= p.Transport.$maxbuf
+//@     assert [C02.kind] isBinary ==> typeis($data, *types.BytesBuffer)
+//@     assert [C02.kindtext] !isBinary ==> typeis($data, *types.StringBuffer)
